@@ -786,3 +786,44 @@ func (r *Run) RequireAtCallFn(rule string, fn *ssa.Function, callee string, min 
 	}
 	return sites
 }
+
+type valueInstr interface {
+	ssa.Instruction
+	ssa.Value
+}
+
+// RequireOnSuccessExcept: like RequireOnSuccess, but success exits whose facts match
+// one of exceptPats (documented trivial early returns) are exempt; at least one
+// non-exempt exit must remain.
+func (r *Run) RequireOnSuccessExcept(rule, fnRef string, exceptPats []string, reqs ...Req) {
+	fn := r.fn(rule, fnRef)
+	if fn == nil {
+		return
+	}
+	ff := r.P.Facts(fn)
+	exits, facts := ff.SuccessFacts()
+	n := 0
+	for _, q := range reqs {
+		ok := true
+		detail, pos := "", ""
+		n = 0
+		for i, ex := range exits {
+			if _, skip := matchAny(exceptPats, facts[i]); skip {
+				continue
+			}
+			n++
+			a, m := matchAny(q.Pats, facts[i])
+			if !m {
+				ok = false
+				pos = r.P.Pos(ex.Pos)
+				detail = fmt.Sprintf("success return at %s is reachable without establishing %q", r.P.Pos(ex.Pos), q.Name)
+				break
+			}
+			if detail == "" {
+				detail = "established by: " + trunc(a, 200)
+				pos = r.P.Pos(ex.Pos)
+			}
+		}
+		r.Check(rule, fnRef+": "+q.Name, pos, ok && n > 0, detail)
+	}
+}
